@@ -216,6 +216,16 @@ func foreignLayout(r *Run, real bool) {
 		b := shuffle(junk(all, true), false)
 		w.Created[filepath.Join(dir, base+"."+tok+".par2")] = b
 	}
+	if t.Bool(1, 6, "volume-copy") {
+		// a whole volume file stored a second time under another name
+		rec := w.RecoveryPaths()
+		if len(rec) > 0 {
+			src := rec[t.Draw(len(rec), "copy-of")]
+			w.Created[strings.TrimSuffix(src, ".par2")+" (copy).par2"] = w.Created[src]
+			features["volume-copy"] = true
+			r.Probe("volume-file-copied")
+		}
+	}
 	for p, b := range w.Created {
 		d.Put(p, b)
 		// the reference reader must read back what the reference writer wrote
